@@ -8,7 +8,7 @@ from vlib.common import Inconclusive, Scratch
 from checks.c17 import judge
 
 LOC = ["union_is_least_upper_bound", "contains_is_a_partial_order"]
-SCAN = ["scan_skip_whitespace", "scan_string_literal", "scan_line_comment", "scan_block_comment", "scan_escape_validation_total"]
+SCAN = ["scan_skip_whitespace", "scan_string_literal", "scan_string_literal_multibyte", "scan_line_comment", "scan_block_comment", "scan_escape_validation_total"]
 
 
 def prepare(sc):
@@ -50,7 +50,7 @@ def run(res, tier, a, prop):
     res.assumptions += [
         "Kani 0.68 / CBMC 6.11 translation of the compiled crate",
         "environment stub: String::from_utf8_lossy returns an empty string in the two comment-scanner harnesses (the comment text is not checked)",
-        "ASCII input only (bytes < 128); multi-byte characters are outside the bound",
+        "ASCII input only (bytes < 128), except scan_string_literal_multibyte: string literals of up to three characters each either one ASCII byte or U+00E9",
         "the logos-generated DFA, keyword/operator recognition, the parser and every consumer of locations are outside the claim",
     ]
     for h in harnesses:
